@@ -430,6 +430,51 @@ def rule_r3(repo):
     return rr
 
 
+def rule_r6(repo, rule='C20.R6'):
+    """A message of data category 11 need not be a table-definition message in the supported layout.  The definition processor is
+    folded on messages of other shapes (subset count, number and kind of the top-level nodes, members of the replications): each
+    must be refused with the library's error - which the scanner absorbs - and with nothing else."""
+    rr = RuleResult(rule, 'a category-11 message that is not in the supported definition layout is refused with PyBufrKitError, whatever its shape')
+    fi = repo.own_method('BufrTableDefinitionProcessor', 'process')
+    good_nodes, good_values, _, _ = definition_message(1, 1, 1)
+    val = lambda i: Obj('ValueDataNode', {'index': i, 'descriptor': el(1001)})
+    seqn = Obj('SequenceNode', {'descriptor': Obj('SequenceDescriptor', {'id': 301001, 'members': [el(1001), el(1002)]}), 'members': [val(0), val(1)]})
+
+    def rep(ids, fixed=False, n=1):
+        vals = []
+        return _rep_node(vals, n, 100000 + 1000 * len(ids), [el(i) for i in ids], fixed)
+    cases = [
+        ('two subsets', list(good_nodes), list(good_values), 2),
+        ('no top-level node', [], [], 1),
+        ('one top-level node', good_nodes[:1], list(good_values), 1),
+        ('two top-level nodes', good_nodes[:2], list(good_values), 1),
+        ('four top-level nodes', list(good_nodes) + [val(0)], list(good_values), 1),
+        ('seven top-level nodes', [val(i) for i in range(7)], [1, 2, 3, 4, 5, 6, 7], 1),
+        ('three plain elements', [val(0), val(1), val(2)], [1, 2, 3], 1),
+        ('a sequence and two elements', [seqn, val(2), val(3)], [1, 2, 3, 4], 1),
+        ('three replications of other members', [rep([1001, 1002]), rep([12101]), rep([4001, 4002, 4003])], [1, 1, 2, 1, 2800, 1, 2024, 1, 2], 1),
+        ('Table A part right, the others not', [good_nodes[0], rep([12101]), rep([4001])], list(good_values), 1),
+        ('Table A and B parts right, Table D part an element', [good_nodes[0], good_nodes[1], val(0)], list(good_values), 1),
+        ('Table B part with one member missing', [good_nodes[0], rep(list(range(10, 20))), good_nodes[2]], list(good_values), 1),
+    ]
+    for name, nodes, values, nsub in cases:
+        it = DefInterp(repo, 'BufrTableDefinitionProcessor')
+        td = Obj('TemplateDataStub', {'decoded_nodes': list(nodes), 'decoded_values': list(values)})
+        msg = Obj('BufrMessage', {'n_subsets': Obj('P', {'value': nsub}), 'template_data': Obj('P', {'value': td})})
+        res = it.run_function(fi, lambda: {'self': Obj('BufrTableDefinitionProcessor', {}), 'bufr_message': msg}, self_class='BufrTableDefinitionProcessor')
+        rr.instance('category-11 message of another shape: %s' % name)
+        for r in res:
+            if r.ok:
+                rr.fail('BufrTableDefinitionProcessor:foreign:accepted', fi.where, 'a message with %s is taken for a table-definition message (returns %r)' % (name, r.value),
+                        witness={'shape': name})
+            elif not repo.is_subclass(r.exc.cls, 'PyBufrKitError'):
+                rr.fail('BufrTableDefinitionProcessor:foreign:error-class', fi.where, 'a category-11 message with %s makes the definition processor raise %s, which is not a '
+                        'PyBufrKitError: the scanner absorbs only the library error, so this one aborts the scan - also with continue-on-error' % (name, r.exc.cls),
+                        witness={'shape': name})
+    rr.require_floor(10)
+    return rr
+
+
 def _copy_tree(v, memo=None):
     """copy.deepcopy(v, memo): an object already copied under the same memo is handed out again (as deepcopy does)"""
     if memo is None:
@@ -454,6 +499,7 @@ def run(repo, check):
     check.run_rule(rule_r1, repo)
     check.run_rule(rule_r2, repo)
     check.run_rule(rule_r3, repo)
+    check.run_rule(rule_r6, repo)
     from sa.rules import c11 as _c11, c13 as _c13
     from sa.rules.common import share
     share(check, repo, _c11.rule_r1, 'C20.R4', 'the scanner extracts and registers the definitions of every table-definition message it passes - also one that a filter '
